@@ -352,7 +352,7 @@ def run(model, col, tier):
     for ob in sub.obligations:
         # a function whose locals have other types than the registers they stand for, or whose body is framed wrongly, is an
         # invalid module: it neither agrees with the VM nor was it refused
-        if ob.rule in ("R07.3", "R07.2", "R07.4", "R07.9"):
+        if ob.rule in ("R07.3", "R07.2", "R07.4", "R07.6", "R07.9"):  # (R07.6: operand order / stack discipline of the emitted templates)
             ob.detail = f"[{ob.rule}] " + (ob.detail or "")
             ob.rule = "R06.6"
             col.obligations.append(ob)
